@@ -10,10 +10,11 @@ from .visualisation.dimensionality_reduction import DimensionalityReducer
 def get_individual_id(individual: Individual) -> str:
     """
     Tree structure in `treelib` requires identifiers for nodes. This function returns
-    the individual's uuid: distinct genomes can share their string representation
-    (numpy prints 8 significant digits), which silently dropped individuals of tightly converged populations.
+    the identity of the individual object: distinct genomes can share their string representation
+    (numpy prints 8 significant digits) and clones share their uuid (`Individual.clone`), which
+    silently dropped individuals from the clustering.
     """
-    return str(individual.uuid)
+    return str(id(individual))
 
 
 class NearestBetterClustering:
